@@ -49,8 +49,8 @@ def batches(ctx):
             b("kind", ["kind"], topos=["line3", "line4", "rollover", "shared", "loop", "akidtrap", "badsig"],
               big=["rollover4"]),
             b("window+name", ["window", "name"], topos=["line3", "rollover", "badsig", "shared"]),
-            b("eku+ku", ["eku", "ku"], topos=["line3", "rollover", "line4"]),
-            b("keyid", ["keyid"], topos=["line3", "akidtrap", "shared"]),
+            b("eku+ku", ["eku", "ku"], topos=["line3", "rollover", "badsig"]),
+            b("keyid", ["keyid"], topos=["line3", "akidtrap"]),
         ]
     return [
         b("topo M=2 3x3", ["topo"], names=("N1", "N2", "N3"), keys=("K1", "K2", "K3"), m=2),
@@ -92,18 +92,33 @@ def judge(ctx, label, tag, timeout=3000):
     return res
 
 
+BLOCK = 64   # the harness hands blocks of 64 consecutive cases to one goroutine (cmd/c07 run)
+
+
 def sub_case(universe_by_id, cases, obs_list):
-    """Self-contained replay body for some observations: the certificates, cases and times involved."""
-    out_cases, ids = [], []
-    for o in obs_list:
-        c = dict(cases[o["case"] - 1])
-        c["times"] = [o["t"]]
-        c["drift"] = False
-        out_cases.append(c)
+    """Self-contained replay body for some observations: the certificates, cases and times involved, plus
+    (as "context") the cases the same harness goroutine ran just before in the same block, for defects
+    that need a history of calls (state leaking from one Verify call into the next)."""
+    out_cases, ctx_cases, ids = [], [], []
+
+    def need(c):
         for i in c["certs"] + c["roots"] + c["inters"] + [c["leaf"]]:
             if i not in ids:
                 ids.append(i)
-    return {"universe": [universe_by_id[i] for i in ids], "cases": out_cases,
+    for o in obs_list:
+        ci = o["case"] - 1
+        c = dict(cases[ci])
+        c["times"] = [o["t"]]
+        c["drift"] = False
+        out_cases.append(c)
+        need(c)
+    ci = obs_list[0]["case"] - 1
+    for k in range((ci // BLOCK) * BLOCK, ci):
+        c = dict(cases[k])
+        c["drift"] = False
+        ctx_cases.append(c)
+        need(c)
+    return {"universe": [universe_by_id[i] for i in ids], "cases": out_cases, "context": ctx_cases,
             "observed": [{k: o[k] for k in ("api", "t", "current", "expired", "never", "err", "panic")} for o in obs_list]}
 
 
@@ -177,14 +192,20 @@ _replay_n = [0]
 def reproduce(ctx, binary, path, body=None):
     body = body or json.load(open(path))
     case = body["case"]
-    _replay_n[0] += 1
-    tag = "replay%d" % _replay_n[0]
-    U, C, O = files(ctx, tag)
-    write_ndjson(U, case["universe"])
-    write_ndjson(C, case["cases"])
-    ctx.run(binary, ["runzero" if case.get("zero") else "run", U, C, O], timeout=600)
-    res = judge(ctx, "replay", tag)
-    return bool(res["rejects"]) or not res["dateok"]
+
+    def attempt(cases):
+        _replay_n[0] += 1
+        tag = "replay%d" % _replay_n[0]
+        U, C, O = files(ctx, tag)
+        write_ndjson(U, case["universe"])
+        write_ndjson(C, cases)
+        ctx.run(binary, ["runzero" if case.get("zero") else "run", U, C, O], timeout=600, env={"VERIF_WORKERS": "1"})
+        res = judge(ctx, "replay", tag)
+        return bool(res["rejects"]) or not res["dateok"]
+    # the failing call alone first; if that is not enough, after the calls that preceded it in its block
+    if attempt(case["cases"]):
+        return True
+    return bool(case.get("context")) and attempt(case["context"] + case["cases"])
 
 
 def gen(ctx, label, tag, subst):
